@@ -149,8 +149,12 @@ def main():
         for sid in ids:
             m = metas()[sid]
             props = m.get("checks") or [m["property"]]
-            with Worktree(SEEDED / sid / "patch.diff") as wt:
-                row = [run_check(p, wt) for p in props]
+            try:
+                with Worktree(SEEDED / sid / "patch.diff") as wt:
+                    row = [run_check(p, wt) for p in props]
+            except SystemExit as e:
+                print(sid, "SKIPPED:", e, flush=True)
+                continue
             caught = any(r["rc"] == 1 and any(l.startswith("VIOLATION") for l in r["lines"]) for r in row)
             mat[sid] = {"property": m["property"], "caught": caught, "runs": row}
             print(sid, "CAUGHT" if caught else "missed", [(r["prop"], r["rc"], r["wall"]) for r in row], flush=True)
